@@ -1910,6 +1910,34 @@ PPL::MIP_Problem::second_phase() {
   if (status == UNBOUNDED || status == OPTIMIZED) {
     return;
   }
+  // If the computation is cut short by an exception (memory exhaustion,
+  // abandoned computation) the tableau, the base and the cost function,
+  // which are updated in place, are left in the middle of a pivoting step:
+  // forget them, so that all the input constraints are pending again
+  // (as done in is_lp_satisfiable()).
+  struct Recovery {
+    MIP_Problem& p;
+    Generator origin;
+    bool armed;
+    Recovery(MIP_Problem& lp)
+      : p(lp), origin(point()), armed(true) {
+    }
+    ~Recovery() {
+      if (armed) {
+        p.tableau.clear();
+        working_cost_type empty_cost(0);
+        swap(p.working_cost, empty_cost);
+        p.mapping.clear();
+        p.base.clear();
+        p.internal_space_dim = 0;
+        p.first_pending_constraint = 0;
+        p.initialized = false;
+        p.status = PARTIALLY_SATISFIABLE;
+        swap(p.last_generator, origin);
+      }
+    }
+  } recovery(*this);
+
   // Build the objective function for the second phase.
   Row new_cost;
   input_obj_function.get_row(new_cost);
@@ -1974,6 +2002,7 @@ PPL::MIP_Problem::second_phase() {
             << "." << std::endl;
 #endif // PPL_NOISY_SIMPLEX
   status = second_phase_successful ? OPTIMIZED : UNBOUNDED;
+  recovery.armed = false;
   PPL_ASSERT(OK());
 }
 
